@@ -31,7 +31,7 @@ ASSUMPTIONS = [
 LEVEL_TEXT = "Generated-input search with metamorphic (orthogonal / column) relations and a span validity predicate. No proof."
 LEVEL_NOTE = "Trusted: NumPy QR for Q, float64 least squares for the span residual, margin computations, constant K."
 TECHNIQUE = "property-based testing (Hypothesis) with metamorphic relations and a validity predicate"
-REQUIRED_CLASSES = {"zerocol:wide": 1, "span": 1, "orth": 1, "colperm": 1, "zerocol": 1, "orth:dense": 1, "MGDA:tight": 1}
+REQUIRED_CLASSES = {"huge-n": 1, "zerocol:wide": 1, "span": 1, "orth": 1, "colperm": 1, "zerocol": 1, "orth:dense": 1, "MGDA:tight": 1}
 
 GRAMIAN = ["UPGrad", "DualProj", "MGDA", "PCGrad", "CAGrad", "IMTLG", "AlignedMTL", "ConFIG", "Krum", "Mean", "Sum",
            "Constant", "Random"]
@@ -125,11 +125,63 @@ def _case(draw, near=False):
     return case
 
 
+@st.composite
+def _huge_case(draw):
+    """More than 2^20 columns (a model with a million parameters): column permutation / zero-column relations for the
+    aggregators that stay cheap at that width. The matrix is expanded from a seed at run time."""
+    name = draw(st.sampled_from(["TrimmedMean", "Mean", "Sum", "Constant", "Krum", "UPGrad", "MGDA"]))
+    m = draw(st.integers(4, 6))
+    rng = np.random.default_rng(draw(SEEDS))
+    spec = {"name": name}
+    if name == "Constant":
+        spec["weights"] = rng.standard_normal(m).tolist()
+    if name == "Krum":
+        spec.update(f=1, k=2)
+    if name == "TrimmedMean":
+        spec["b"] = 1
+    return {"relation": "huge", "agg": spec, "dtype": draw(st.sampled_from(["float64", "float32"])), "m": m,
+            "n": 2**20 + draw(st.sampled_from([1, 3, 5, 1000, 2**19 + 7])), "seed": draw(st.integers(0, 2**31 - 1)),
+            "J": [[0.0]], "family": "huge-n"}
+
+
+def _huge_run(case, out):
+    spec, dtype = case["agg"], case["dtype"]
+    name = spec["name"]
+    tdt = getattr(torch, dtype)
+    rng = np.random.default_rng(case["seed"])
+    m, n = case["m"], case["n"]
+    out.cls("huge-n", name, dtype)
+    Jt = torch.tensor(rng.standard_normal((m, n)), dtype=tdt)
+    A = aggs.make(spec, dtype)
+    x0 = out.call(f"raises:{name}", A, Jt)
+    if x0 is RAISED:
+        return
+    if not out.check(tuple(x0.shape) == (n,) and bool(torch.isfinite(x0).all()), f"huge:shape-finite:{name}", str(tuple(x0.shape))):
+        return
+    perm = torch.from_numpy(rng.permutation(n))
+    x1 = out.call(f"raises:{name}", aggs.make(spec, dtype), Jt[:, perm])
+    if x1 is RAISED:
+        return
+    eps = eps_of(dtype)
+    scale = float(x0.abs().max()) + 1.0
+    tol = 1e3 * eps * scale if name in ("UPGrad", "MGDA") else 64 * eps * scale
+    err = float((x1.double() - x0.double()[perm]).abs().max())
+    out.within(err, tol, f"column-permutation:{name}", f"n = {n}: max deviation {err:.3e}")
+    # a TrimmedMean / Mean coordinate depends on its own column only: compare a few columns with a direct computation
+    if name in ("TrimmedMean", "Mean", "Sum"):
+        cols = torch.tensor([0, 1, n // 2, 2**20 - 1, 2**20, n - 2, n - 1])
+        sub_ = aggs.make(spec, dtype)(Jt[:, cols].contiguous())
+        out.within(float((x0[cols].double() - sub_.double()).abs().max()), 64 * eps * scale, f"huge:column-locality:{name}",
+                   f"columns {cols.tolist()} computed alone differ from the same columns inside the {n}-column matrix")
+    out.nontrivial = True
+
+
 def parts(tier):
     n = 15_000 if tier == "quick" else 400_000
     n2 = 2_000 if tier == "quick" else 40_000
     return [Part("generated", "given", n=n, strategy=_case),
-            Part("entries_below_norm_eps", "given", n=n2, strategy=lambda: _case(near=True))]
+            Part("entries_below_norm_eps", "given", n=n2, strategy=lambda: _case(near=True)),
+            Part("million_columns", "given", n=32 if tier == "quick" else 600, strategy=_huge_case)]
 
 
 def _run(spec, dtype, Jt, case):
@@ -143,6 +195,9 @@ def _run(spec, dtype, Jt, case):
 
 def run_case(case) -> Outcome:
     out = Outcome()
+    if case.get("relation") == "huge":
+        _huge_run(case, out)
+        return out
     spec, dtype, relation = case["agg"], case["dtype"], case["relation"]
     name = spec["name"]
     eps = eps_of(dtype)
